@@ -57,9 +57,16 @@ func (w *World) genFunction(key string, conc bool) (*FuncResult, error) {
 	for k, s := range d.compSort {
 		vc.compSort[k] = s
 	}
+	// sorts met during discovery are declared up front (components may be havocked before their first use)
+	vc.sortDecls = append([]string{}, d.sortDecls...)
+	for k := range d.declared {
+		if strings.HasPrefix(k, "sort:") {
+			vc.declared[k] = true
+		}
+	}
 	ex := vc.setupAndRun()
 	vc.finish(ex)
-	res := &FuncResult{Key: key, Spec: spec, Decls: vc.decls, Facts: vc.facts, Errs: vc.errs, Pos: fn.Pos(), Conc: conc}
+	res := &FuncResult{Key: key, Spec: spec, Decls: append(append([]string{}, vc.sortDecls...), vc.decls...), Facts: vc.facts, Errs: vc.errs, Pos: fn.Pos(), Conc: conc}
 	for a := range vc.assumptions {
 		res.Assumes = append(res.Assumes, a)
 	}
